@@ -2,10 +2,13 @@ import Std.Data.HashMap
 import Driver.Proto
 import Driver.Loop
 import Driver.C01
+import Driver.C01E
+import Driver.C01N
 import Driver.C02
 import Driver.C03
 import Driver.C04
 import Driver.C05
+import Driver.C05B
 import Driver.C06
 import Driver.C07
 import Driver.C08
@@ -21,14 +24,34 @@ import Driver.C17
 import Driver.C18
 import Driver.C19
 import Driver.C20
-/-! `vdrv`: reads protocol lines from stdin, evaluates model/spec functions, prints replies. -/
+/-! `vdrv`: reads protocol lines from stdin, evaluates model/spec functions, prints replies.
+One line per driver module (sub-checks such as C05B, C01N included) so that parallel branches merge cleanly. -/
 open Verif Verif.Driver
 
 def allHandlers : List (String × Handler) :=
-  C01.handlers ++ C02.handlers ++ C03.handlers ++ C04.handlers ++ C05.handlers ++
-  C06.handlers ++ C07.handlers ++ C08.handlers ++ C09.handlers ++ C10.handlers ++
-  C11.handlers ++ C12.handlers ++ C13.handlers ++ C14.handlers ++ C15.handlers ++
-  C16.handlers ++ C17.handlers ++ C18.handlers ++ C19.handlers ++ C20.handlers ++
+  C01.handlers ++
+  C01E.handlers ++
+  C01N.handlers ++
+  C02.handlers ++
+  C03.handlers ++
+  C04.handlers ++
+  C05.handlers ++
+  C05B.handlers ++
+  C06.handlers ++
+  C07.handlers ++
+  C08.handlers ++
+  C09.handlers ++
+  C10.handlers ++
+  C11.handlers ++
+  C12.handlers ++
+  C13.handlers ++
+  C14.handlers ++
+  C15.handlers ++
+  C16.handlers ++
+  C17.handlers ++
+  C18.handlers ++
+  C19.handlers ++
+  C20.handlers ++
   [("echo", fun args => argBytes args 0)]
 
 def main (args : List String) : IO Unit := runMain allHandlers args
